@@ -123,6 +123,7 @@ contract(MT + '_get_transfer_default_return',
          modifies=['LOGGER._warning_count'],
          raises={'KeyError': 'True', 'AssertionError': 'True'},
          ensures={
+             'count_monotone': 'LOGGER._warning_count >= old(LOGGER._warning_count)',
              'C02.return.documented_default': "implies(spec_return_default(self, parent, node) != 'CTOR', "
                                               "result == spec_return_default(self, parent, node))",
              'C02.return.plain_object_no_default': "implies(spec_return_default(self, parent, node) == 'CTOR' and "
@@ -141,6 +142,8 @@ contract(MT + '_get_transfer_default',
          modifies=['LOGGER._warning_count'],
          raises={'KeyError': 'True', 'AssertionError': 'True'},
          ensures={
+             'count_monotone': 'LOGGER._warning_count >= old(LOGGER._warning_count)',
+             'quiet_unless_return': 'implies(not isinstance(node, ast.Return), LOGGER._warning_count == old(LOGGER._warning_count))',
              'C02.default.void_and_varargs_none': "implies(is_void_or_varargs(node.type), result == 'none')",
              'C02.default.in_param_none': "implies(not is_void_or_varargs(node.type) and isinstance(node, ast.Parameter) "
                                           "and node.direction not in ('out', 'inout'), result == 'none')",
